@@ -508,3 +508,37 @@ Proof. split; vm_compute; reflexivity. Qed.
 
 Example ex_prune : option_map (map asid) (nondominated_prune 2 ex_ann 3) = Some [0; 1; 2].
 Proof. vm_compute. reflexivity. Qed.
+
+(* ---------- a population that has just been sorted by nondominated_sort ---------- *)
+Section SortedPopulation.
+  Variable c : bool.
+  Variable dirs : list bool.
+  Variable l : list xsol.
+  Variable ann : list asol.
+  Hypothesis Hwf : Forall (sol_wf xq xltb xzero dirs) l.
+  Hypothesis Hinj : sid_inj l.
+  Hypothesis Hsort : x_nd_sort c dirs l = Some ann.
+
+  Lemma sorted_asid : map asid ann = map sid l.
+  Proof. rewrite <- (ann_sols c dirs l ann Hsort), map_map. reflexivity. Qed.
+
+  Lemma sorted_length : length ann = length l.
+  Proof. rewrite <- (ann_sols c dirs l ann Hsort). now rewrite map_length. Qed.
+
+  (* pruning returns exactly min(size, n) members *)
+  Theorem sorted_prune_length nobjs size out : nondominated_prune nobjs ann size = Some out ->
+    length out = min size (length l).
+  Proof.
+    intro H. destruct (x_ranks_contiguous c dirs l ann Hwf Hinj Hsort) as [m [_ [Hr Hocc]]].
+    rewrite <- sorted_length. apply (prune_length nobjs ann size out H m Hr Hocc).
+  Qed.
+
+  (* everything fits: split returns (all fronts in rank order, []) *)
+  Theorem sorted_split_all size : length l <= size -> exists first,
+    nondominated_split ann size = Some (first, []) /\ Permutation first ann.
+  Proof.
+    intro H. destruct (x_ranks_contiguous c dirs l ann Hwf Hinj Hsort) as [m [_ [Hr Hocc]]].
+    rewrite <- sorted_length in H.
+    destruct (split_all asol a_rank ann size m Hr Hocc H) as [E P]. eauto.
+  Qed.
+End SortedPopulation.
